@@ -6,27 +6,59 @@ COMMON_ASSUMPTIONS = [
     "A3: z3 answers unsat correctly",
     "A4: dict/set behave as maps/sets keyed by __eq__ (hash collisions not modelled)",
     "A5: no RecursionError/MemoryError; CPython id() unique among live objects (ID-INJ)",
-    "A8: value semantics for mutation; functions verified for unaliased arguments",
+    "A8: value semantics for immutable containers, reference semantics for dict-like objects; "
+    "functions verified for unaliased arguments",
     "A9: termination proved only where a decreases clause exists",
     "Abs.var_name, _hash_val, exception message texts are not modelled (DESIGN 2.2)",
 ]
+
+KERNEL_SPECS = ['spec.terms', 'spec.types', 'spec.subst', 'spec.thm']
+KERNEL_CONTRACTS = ['contracts.kernel_term', 'contracts.kernel_type', 'contracts.kernel_term2',
+                    'contracts.kernel_thm']
 
 TERM_TARGETS = [
     'kernel.term.Term.size', 'kernel.term.Term.is_comb', 'kernel.term.Term.__eq__',
     'kernel.term.Term.is_open.rec', 'kernel.term.Term.is_open',
     'kernel.term.Term.incr_boundvars.rec', 'kernel.term.Term.incr_boundvars',
     'kernel.term.Term.subst_bound.rec', 'kernel.term.Term.subst_bound', 'kernel.term.Term.beta_conv',
-    'kernel.term.Term.occurs_var', 'kernel.term.Term.abstract_over.rec', 'kernel.term.Term.abstract_over',
-    'lemma:lift_closed',
+    'kernel.term.Term.abstract_over.rec', 'kernel.term.Term.abstract_over',
+    'kernel.term.Term.get_type.rec', 'kernel.term.Term.get_type',
+    'kernel.term.Term.checked_get_type.rec', 'kernel.term.Term.checked_get_type',
+    'kernel.term.Term.strip_comb', 'kernel.term.Term.args', 'kernel.term.Term.head',
+    'kernel.term.Term.subst_type',
+    'kernel.type.Type.__eq__', 'kernel.type.Type.subst',
+    'lemma:lift_closed', 'lemma:rev_rargs', 'lemma:len_args', 'lemma:args_small',
+]
+
+THM_RULES = ['assume', 'implies_intr', 'implies_elim', 'reflexive', 'symmetric', 'transitive', 'combination',
+             'equal_intr', 'equal_elim', 'subst_type', 'beta_conv', 'abstraction', 'forall_intr', 'forall_elim']
+
+C01_TARGETS = ['kernel.thm.Thm.' + r for r in THM_RULES] + [
+    'kernel.thm.Thm.check_thm_type', 'kernel.thm.Thm.can_prove',
+    'kernel.term.Term.occurs_var',
 ]
 
 PLANS = {
+    'C01': dict(
+        specs=KERNEL_SPECS, contracts=KERNEL_CONTRACTS, targets=C01_TARGETS, level='proof',
+        assumptions=COMMON_ASSUMPTIONS + [
+            "A1: the rule schemas in /verif/spec/thm.py are the sound rules of HOL (literature; not "
+            "machine-checked): what is proved is that each implemented rule refines its schema, side "
+            "conditions included, and that check_thm_type/checked_get_type implement the typing judgement",
+            "A1b: constants named equals/implies/all occur at instances of their declared types and type "
+            "constructors at their declared arity (the checker does not call check_term/check_type)",
+            "contracts of kernel.term helpers (get_type, subst_bound, abstract_over, args, ...) are assumed "
+            "here and discharged under C03",
+        ],
+        trusted_base=['pyvc (this repository)', 'z3 5.1'],
+    ),
     'C03': dict(
-        specs=['spec.terms'],
-        contracts=['contracts.kernel_term'],
-        targets=TERM_TARGETS,
-        level='proof',
-        assumptions=COMMON_ASSUMPTIONS,
+        specs=KERNEL_SPECS, contracts=KERNEL_CONTRACTS, targets=TERM_TARGETS, level='proof',
+        assumptions=COMMON_ASSUMPTIONS + [
+            "tuple equality of Type.args uses Type.__eq__'s own contract as induction hypothesis",
+            "denotation preservation in every model is A1 (the spec functions lift/inst_bound/abstract are "
+            "the standard de Bruijn operations)",
+        ],
         trusted_base=['pyvc (this repository)', 'z3 5.1'],
     ),
 }
